@@ -104,7 +104,9 @@ func (x *X) translate(fi *FuncInfo) {
 		}
 	}()
 	c := &fctx{x: x, fi: fi, info: fi.pkg.TypesInfo, names: map[*types.Var]string{}, used: map[string]int{}}
-	sig := fi.obj.Type().(*types.Signature)
+	if fi.err != "" {
+		return
+	}
 	params := paramVars(fi)
 	var header []string
 	for _, p := range params {
@@ -117,17 +119,31 @@ func (x *X) translate(fi *FuncInfo) {
 			o.emit(1, "let mut %s := %s", c.varName(p), c.varName(p))
 		}
 	}
-	for i := 0; i < sig.Results().Len(); i++ { // named results
-		r := sig.Results().At(i)
+	for i := 0; i < fi.results.Len(); i++ { // named results
+		r := fi.results.At(i)
 		if r.Name() != "" && r.Name() != "_" {
 			o.emit(1, "let mut %s : %s := %s", c.varName(r), x.leanType(r.Type(), true), c.zeroResult(r.Type()))
 		}
 	}
-	c.block(o, 1, fi.decl.Body.List)
-	if n := len(fi.decl.Body.List); n == 0 || !isReturn(fi.decl.Body.List[n-1]) {
-		if sig.Results().Len() == 0 {
-			o.emit(1, "return %s", c.retTuple(nil))
+	if fi.fwdCall != nil { // `return g(args)` where g returns a closure: pass the remaining parameters on
+		gi := x.funcs[calleeFunc(c.info, fi.fwdCall)]
+		args := c.userArgs(gi, fi.fwdCall)
+		for i, t := range fi.fwd {
+			n := fmt.Sprintf("a%d", i+1)
+			header = append(header, fmt.Sprintf("(%s : %s)", n, x.leanType(t, false)))
+			args = append(args, n)
 		}
+		o.emit(1, "return %s", c.userCall(gi, fi.fwdCall, args))
+	} else {
+		c.block(o, 1, fi.body)
+		if n := len(fi.body); n == 0 || !isReturn(fi.body[n-1]) {
+			if fi.results.Len() == 0 {
+				o.emit(1, "return %s", c.retTuple(nil))
+			}
+		}
+	}
+	for _, or := range c.fi.oracles {
+		header = append(header, fmt.Sprintf("(%s : %s)", or.name, or.typ))
 	}
 	rt := c.retType()
 	var sb strings.Builder
@@ -162,10 +178,9 @@ func (c *fctx) zeroResult(t types.Type) string {
 
 // retType: results followed by the written-through parameters.
 func (c *fctx) retType() string {
-	sig := c.fi.obj.Type().(*types.Signature)
 	var parts []string
-	for i := 0; i < sig.Results().Len(); i++ {
-		parts = append(parts, c.x.leanType(sig.Results().At(i).Type(), true))
+	for i := 0; i < c.fi.results.Len(); i++ {
+		parts = append(parts, c.x.leanType(c.fi.results.At(i).Type(), true))
 	}
 	ps := paramVars(c.fi)
 	for _, mi := range c.fi.mutParams {
@@ -440,15 +455,15 @@ func (c *fctx) define(o *out, ind int, lhs ast.Expr, val string, isDefine bool) 
 }
 
 func (c *fctx) ret(o *out, ind int, t *ast.ReturnStmt) {
-	sig := c.fi.obj.Type().(*types.Signature)
+	res := c.fi.results
 	var vals []string
 	if len(t.Results) == 0 {
-		for i := 0; i < sig.Results().Len(); i++ {
-			vals = append(vals, c.varName(sig.Results().At(i)))
+		for i := 0; i < res.Len(); i++ {
+			vals = append(vals, c.varName(res.At(i)))
 		}
-	} else if len(t.Results) == sig.Results().Len() {
+	} else if len(t.Results) == res.Len() {
 		for i, r := range t.Results {
-			rt := sig.Results().At(i).Type()
+			rt := res.At(i).Type()
 			if c.x.kindOf(rt) == kPtrStruct {
 				if isNil(r) {
 					vals = append(vals, "none")
